@@ -37,6 +37,8 @@ def configs(tier):
         for (m, n, M, N) in shapes:
             for d in ('fwd', 'inv'):
                 for sh in ('zero', 'sym'):
+                    if q and sh == 'sym' and meth == 'czt' and (m, n, M, N) not in ((2, 2, 2, 2), (2, 3, 3, 2), (1, 2, 2, 1)):
+                        continue     # symbolic shift through the chirp-Z route is the expensive case: parity/non-square subset
                     out.append({'name': 'fixed-%s-%s-%dx%d-%dx%d-%s' % (meth, d, m, n, M, N, sh), 'kind': 'fixed', 'method': meth,
                                 'dir': d, 'in': [m, n], 'out': [M, N], 'shift': sh})
     out.append({'name': 'converters', 'kind': 'conv'})
